@@ -1,6 +1,109 @@
 import Driver.Util
-open Lean
+import DoitModel.Model.Crash
+open Lean DoitModel.Crash
 namespace Driver.Crash
-/-- handler for requests with `"model": "crash"` (stub: filled in when the model exists) -/
-def handle (_ : Json) : Json := Driver.err "model not implemented"
+/-! requests (`"model":"crash"`):
+  * `{"op":"allowed","backend":"json|dbm|sqlite","existed":bool,"tasks":[t..],"old":[[t,r]..],
+     "effs":[["save",t,r]|["remove",t]..],"observed":{"unreadable":bool,"slots":[[t,"absent"|"corrupt"|r]..]}}`
+    → `{"allowed":bool,"points":n}`: is the observed recovered state one the model allows for *some* kill point
+    and *some* resolution of the choices A1–A3 leave open (iteration order of the dirty set included)?
+  * `{"op":"afterRun","continue":bool,"tasks":[..],"old":[[t,r]..],"plan":[[t,"ok",r]|[t,"fail"]|[t,"interrupt"]..]}`
+    → `{"final":[[t,r|null]..],"reportedOk":[[t,r]..]}` -/
+
+def storeOf (pairs : List Json) : Store := fun t =>
+  (pairs.find? (fun p => match asArr p with | [a, _] => asNat a = t | _ => false)).bind
+    (fun p => match asArr p with | [_, b] => some (asNat b) | _ => none)
+
+def parseEff (j : Json) : Option Eff :=
+  match asArr j with
+  | [tag, t, r] => if asStr tag = "save" then some (.save (asNat t) (asNat r)) else none
+  | [tag, t] => if asStr tag = "remove" then some (.remove (asNat t)) else none
+  | _ => none
+
+def parseSlot (j : Json) : Slot :=
+  match j with
+  | .str "absent" => .absent
+  | .str "corrupt" => .corrupt
+  | other => .rcd (asNat other)
+
+def slotsEq (tasks : List T) (obs : T → Slot) (f : T → Slot) : Bool := tasks.all fun t => obs t == f t
+instance : BEq Slot := ⟨fun a b => decide (a = b)⟩
+
+def matchRec (tasks : List T) (obsUnreadable : Bool) (obs : T → Slot) : Recovered → Bool
+  | .unreadable => obsUnreadable
+  | .store f => !obsUnreadable && tasks.all (fun t => decide (obs t = f t))
+
+/-- all sublists-as-predicates over the task list -/
+def subsets : List T → List (T → Bool)
+  | [] => [fun _ => false]
+  | t :: ts => (subsets ts).flatMap fun k => [k, fun x => if x = t then true else k x]
+
+def allSeens : Nat → List (Nat → SetSeen)
+  | 0 => [fun _ => .old]
+  | n + 1 => (allSeens n).flatMap fun f =>
+      [SetSeen.old, SetSeen.new, SetSeen.garbage].map fun s => fun i => if i = n then s else f i
+
+def perms {α : Type} : List α → List (List α)
+  | [] => [[]]
+  | x :: xs => (perms xs).flatMap fun p => (List.range (p.length + 1)).map fun i => p.take i ++ [x] ++ p.drop i
+
+def allowed (backend : String) (existed : Bool) (tasks : List T) (old : Store) (effs : List Eff)
+    (obsU : Bool) (obs : T → Slot) : Bool × Nat :=
+  match backend with
+  | "json" =>
+    let n := (jsonProtocol old effs 1).length
+    ((List.range (n + 1)).any (fun k => matchRec tasks obsU obs (jsonCrash old existed effs 1 k)), n + 1)
+  | "sqlite" =>
+    let dirty := dirtyOf effs
+    let n := (sqliteProtocol effs dirty).length
+    ((List.range (n + 1)).any (fun k => matchRec tasks obsU obs (sqliteCrash old effs dirty k)), n + 1)
+  | "dbm" =>
+    let orders := perms (dirtyOf effs)
+    let res := orders.any fun dirty =>
+      let n := (dbmProtocol effs dirty).length
+      (List.range (n + 1)).any fun k =>
+        (allSeens n).any fun seens =>
+          matchRec tasks obsU obs (dbmCrash old effs dirty seens k none) ||
+          ([SetSeen.old, SetSeen.new, SetSeen.garbage].any fun s =>
+            [true, false].any fun torn =>
+              (subsets tasks).any fun keep =>
+                matchRec tasks obsU obs (dbmCrash old effs dirty seens k (some (s, torn, keep))))
+    (res, (dbmProtocol effs (dirtyOf effs)).length + 1)
+  | _ => (false, 0)
+
+def parseOutcome (j : Json) : Option (T × Outcome) :=
+  match asArr j with
+  | [t, tag, r] => if asStr tag = "ok" then some (asNat t, .ok (asNat r)) else none
+  | [t, tag] =>
+    if asStr tag = "fail" then some (asNat t, .fail)
+    else if asStr tag = "interrupt" then some (asNat t, .interrupt) else none
+  | _ => none
+
+def handle (j : Json) : Json :=
+  let tasks := jnats j "tasks"
+  let old := storeOf (jarr j "old")
+  match jstr j "op" with
+  | "allowed" =>
+    match (jarr j "effs").mapM parseEff with
+    | none => Driver.err "bad effect"
+    | some effs =>
+      let o := jobj j "observed"
+      let obsPairs := jarr o "slots"
+      let obs : T → Slot := fun t =>
+        match obsPairs.find? (fun p => match asArr p with | [a, _] => asNat a = t | _ => false) with
+        | some p => (match asArr p with | [_, b] => parseSlot b | _ => .absent)
+        | none => .absent
+      let (ok, n) := allowed (jstr j "backend") (jbool j "existed") tasks old effs (jbool o "unreadable") obs
+      Json.mkObj [("allowed", Json.bool ok), ("points", toJson n)]
+  | "afterRun" =>
+    match (jarr j "plan").mapM parseOutcome with
+    | none => Driver.err "bad plan"
+    | some plan =>
+      let c := jbool j "continue"
+      let fin := afterRun old c plan
+      Json.mkObj [
+        ("final", mkArr (tasks.map fun t => mkArr [toJson t, match fin t with | some r => toJson r | none => Json.null])),
+        ("reportedOk", mkArr ((reportedOk c plan).map fun p => mkArr [toJson p.1, toJson p.2]))]
+  | _ => Driver.err "bad op"
+
 end Driver.Crash
